@@ -140,6 +140,18 @@ x
 ;=> 10
 (force rp3)
 ;=> 0
+(define mcnt 0)
+(define mr (delay (begin (set! mcnt (+ mcnt 1)) mcnt)))
+(define ms (delay-force mr))
+(force ms)
+;=> 1
+(force mr)
+;=> 1
+mcnt
+;=> 1
+(define mt (delay-force ms))
+(list (force mt) (force ms) (force mr) mcnt)
+;=> (1 1 1 1)
 (define (rloop n) (if (= n 0) (delay 'end) (delay-force (rloop (- n 1)))))
 (force (rloop 20))
 ;=> end
